@@ -1,3 +1,4 @@
+import CasbinModel.Lemmas.TextSave
 import CasbinModel.Lemmas.Csv
 import CasbinModel.Lemmas.Mirror
 import CasbinModel.Lemmas.MirrorBatch
@@ -797,6 +798,161 @@ theorem save_establishes_mirror (e : Enforcer) (hk : e.adapter.kind = .memory) (
   rw [hget, foldl_insertMove_nodup _ [] (hw sec pt) (by simp)]
   simp
 
+
+/-! ### `save_policy` into a file / string adapter, then `load_policy` -/
+
+/-- every policy type name and every stored rule can be written as text -/
+structure Writable (s : Store) : Prop where
+  keys : ∀ d ∈ s.p ++ s.g, SafeKey d.key
+  rules : ∀ d ∈ s.p ++ s.g, ∀ r ∈ d.policy, SafeRule r
+
+theorem lineRecord_saved (sep : List Char) (hsep : IsSep sep) (k : String) (r : Rule) (hk : SafeKey k) (hr : SafeRule r) :
+    lineRecord (renderLine sep k.toList (r.map String.toList)) = some (String.ofList (k.toList.take 1), k, r) := by
+  apply lineRecord_render sep _ hk
+  apply parse_render sep k.toList (r.map String.toList) hsep hk.safe hk.noComma hk.noHash
+  · intro f hf
+    simp only [List.mem_map] at hf
+    obtain ⟨x, hx, rfl⟩ := hf
+    exact hr.safe x hx
+  · intro h
+    exact hr.ne (by simpa using h)
+
+theorem filterMap_rules (sep : List Char) (hsep : IsSep sep) (d : PolDef) (hk : SafeKey d.key) (rs : List Rule)
+    (hr : ∀ r ∈ rs, SafeRule r) :
+    (rs.map (fun r => renderLine sep d.key.toList (r.map String.toList))).filterMap lineRecord =
+      rs.map (fun r => (tagOf d, d.key, r)) := by
+  induction rs with
+  | nil => rfl
+  | cons r rest ih =>
+    simp only [List.map_cons, List.filterMap_cons]
+    rw [lineRecord_saved sep hsep d.key r hk (hr r List.mem_cons_self)]
+    simp only []
+    rw [ih (fun x hx => hr x (List.mem_cons_of_mem _ hx))]
+    rfl
+
+theorem filterMap_defs (sep : List Char) (hsep : IsSep sep) (ds : List PolDef) (hk : ∀ d ∈ ds, SafeKey d.key)
+    (hr : ∀ d ∈ ds, ∀ r ∈ d.policy, SafeRule r) :
+    (ds.flatMap (fun d => d.policy.map (fun r => renderLine sep d.key.toList (r.map String.toList)))).filterMap lineRecord =
+      ds.flatMap (fun d => d.policy.map (fun r => (tagOf d, d.key, r))) := by
+  induction ds with
+  | nil => rfl
+  | cons d rest ih =>
+    simp only [List.flatMap_cons, List.filterMap_append]
+    rw [filterMap_rules sep hsep d (hk d List.mem_cons_self) d.policy (hr d List.mem_cons_self),
+      ih (fun x hx => hk x (List.mem_cons_of_mem _ hx)) (fun x hx => hr x (List.mem_cons_of_mem _ hx))]
+
+/-- **the text `save_policy` writes reads back, line for line, as the stored rules** under their policy types, in
+stored order: quoting, separators and line ends lose nothing -/
+theorem saved_text_records (sep : List Char) (hsep : IsSep sep) (hnl : '\n' ∉ sep) (s : Store) (hw : Writable s) :
+    (splitLines (((s.p ++ s.g).flatMap (fun d =>
+        d.policy.map (fun r => renderLine sep d.key.toList (r.map String.toList) ++ ['\n']))).flatten)).filterMap lineRecord =
+      (s.p ++ s.g).flatMap (fun d => d.policy.map (fun r => (tagOf d, d.key, r))) := by
+  have hlines : (s.p ++ s.g).flatMap (fun d =>
+        d.policy.map (fun r => renderLine sep d.key.toList (r.map String.toList) ++ ['\n'])) =
+      ((s.p ++ s.g).flatMap (fun d =>
+        d.policy.map (fun r => renderLine sep d.key.toList (r.map String.toList)))).map (· ++ ['\n']) := by
+    rw [List.map_flatMap]
+    congr 1
+    funext d
+    rw [List.map_map]
+    rfl
+  rw [hlines, splitLines_terminated]
+  · rw [List.filterMap_append, filterMap_defs sep hsep _ hw.keys hw.rules]
+    have : [([] : List Char)].filterMap lineRecord = [] := rfl
+    rw [this, List.append_nil]
+  · intro l hl
+    simp only [List.mem_flatMap, List.mem_map] at hl
+    obtain ⟨d, hd, r, hr, rfl⟩ := hl
+    exact renderLine_no_nl sep hnl d.key r (hw.keys d hd) (hw.rules d hd r hr)
+
+/-- the records of all definitions, seen per policy type, are the stored rule lists -/
+theorem recsFor_allRecords (s : Store) (hc : Canon s) (sec pt : String) (hex : (s.find sec pt).isSome = true) :
+    recsFor sec pt ((s.p ++ s.g).flatMap (fun d => d.policy.map (fun r => (tagOf d, d.key, r)))) = s.getPolicy sec pt := by
+  rw [recsFor_flatMap]
+  have hfun : (fun d : PolDef => recsFor sec pt (d.policy.map (fun r => (tagOf d, d.key, r)))) =
+      (fun d => if tagOf d = sec ∧ d.key = pt then d.policy else []) := by
+    funext d; exact recsFor_const sec pt (tagOf d) d.key d.policy
+  rw [hfun, List.flatMap_append]
+  have hsec : sec = "p" ∨ sec = "g" := by
+    by_cases h1 : sec = "p"
+    · exact Or.inl h1
+    · by_cases h2 : sec = "g"
+      · exact Or.inr h2
+      · exfalso
+        simp [Store.find, Store.sec, h1, h2] at hex
+  rcases hsec with rfl | rfl
+  · rw [flatMap_unique s.p "p" pt hc.ptag hc.pkeys,
+      flatMap_other s.g "p" pt (fun d hd => by rw [hc.gtag d hd]; decide)]
+    simp [Store.getPolicy, Store.find, Store.sec]
+    cases List.find? (fun x => decide (x.key = pt)) s.p <;> rfl
+  · rw [flatMap_other s.p "g" pt (fun d hd => by rw [hc.ptag d hd]; decide),
+      flatMap_unique s.g "g" pt hc.gtag hc.gkeys]
+    simp [Store.getPolicy, Store.find, Store.sec]
+    cases List.find? (fun x => decide (x.key = pt)) s.g <;> rfl
+
+/-- `save_policy` into a file or string adapter: the rules stay, and the adapter then offers exactly the stored rules -/
+theorem save_text_records (e : Enforcer) (hk : e.adapter.kind = .file ∨ e.adapter.kind = .string) (hp : e.adapter.plan = [])
+    (hf : e.adapter.filtered = false) (hw : Writable e.store) (hpd : e.store.p.isEmpty = false) :
+    e.savePolicy.1.store = e.store ∧
+    e.savePolicy.1.adapter.records =
+      (e.store.p ++ e.store.g).flatMap (fun d => d.policy.map (fun r => (tagOf d, d.key, r))) := by
+  have hsave : ∃ sep, IsSep sep ∧ '\n' ∉ sep ∧ e.adapter.save e.store =
+      ({ e.adapter with text := ((e.store.p ++ e.store.g).flatMap (fun d =>
+          d.policy.map (fun r => renderLine sep d.key.toList (r.map String.toList) ++ ['\n']))).flatten }, some ()) := by
+    rcases hk with hk | hk
+    · refine ⟨[','], ⟨[], rfl, by intro c hc; cases hc⟩, by decide, ?_⟩
+      simp only [AdapterSt.save, AdapterSt.nextFault, hp, hk, adapter_plan_nil e.adapter hp, hpd, Bool.false_eq_true, if_false]
+      rfl
+    · refine ⟨[',', ' '], ⟨[' '], rfl, by intro c hc; simp only [List.mem_singleton] at hc; subst hc; rfl⟩, by decide, ?_⟩
+      simp only [AdapterSt.save, AdapterSt.nextFault, hp, hk, adapter_plan_nil e.adapter hp, hpd, Bool.false_eq_true, if_false]
+      rfl
+  obtain ⟨sep, hsep, hnl, hsave⟩ := hsave
+  have hfields : e.savePolicy.1.store = e.store ∧ e.savePolicy.1.adapter =
+      { e.adapter with text := ((e.store.p ++ e.store.g).flatMap (fun d =>
+          d.policy.map (fun r => renderLine sep d.key.toList (r.map String.toList) ++ ['\n']))).flatten } := by
+    unfold Enforcer.savePolicy
+    simp only [hf, Bool.false_eq_true, if_false, hsave]
+    rw [(emit_fields _ _).1, (emit_fields _ _).2]
+    exact ⟨rfl, rfl⟩
+  refine ⟨hfields.1, ?_⟩
+  rw [hfields.2]
+  generalize hT : ((e.store.p ++ e.store.g).flatMap (fun d =>
+          d.policy.map (fun r => renderLine sep d.key.toList (r.map String.toList) ++ ['\n']))).flatten = T
+  have hk' : ({ e.adapter with text := T } : AdapterSt).kind = .file ∨ ({ e.adapter with text := T } : AdapterSt).kind = .string := hk
+  rw [records_text _ hk']
+  show (splitLines T).filterMap lineRecord = _
+  rw [← hT]
+  exact saved_text_records sep hsep hnl e.store hw
+
+/-- a model without a policy definition is refused by the file and string adapters, and the refusal leaves the stored
+text, the rules and the filtered flag as they were -/
+theorem save_without_pdef_refused (e : Enforcer) (hk : e.adapter.kind = .file ∨ e.adapter.kind = .string)
+    (hp : e.adapter.plan = []) (hf : e.adapter.filtered = false) (hpd : e.store.p.isEmpty = true) :
+    e.savePolicy.2 = .err .model ∧ e.savePolicy.1.adapter = e.adapter ∧ e.savePolicy.1.store = e.store := by
+  have hsave : e.adapter.save e.store = (e.adapter, none) := by
+    rcases hk with hk | hk <;>
+      simp only [AdapterSt.save, AdapterSt.nextFault, hp, hk, adapter_plan_nil e.adapter hp, hpd, if_true]
+  have herr : e.adapter.saveErr e.store = .model := by
+    rcases hk with hk | hk <;> simp [AdapterSt.saveErr, AdapterSt.nextFault, hp, hk, hpd]
+  unfold Enforcer.savePolicy
+  rw [if_neg (by rw [hf]; exact Bool.false_ne_true), hsave, herr]
+  exact ⟨rfl, rfl, rfl⟩
+
+/-- **save, then load, is the identity for the file and the string adapter**: after a `save_policy` that the adapter
+accepts, a `load_policy` puts back, under every policy type, exactly the rules that were stored, in stored order -
+whatever commas, blanks inside values, '#', '=' or multi-byte characters the values contain -/
+theorem save_then_load_text (e : Enforcer) (hk : e.adapter.kind = .file ∨ e.adapter.kind = .string)
+    (hp : e.adapter.plan = []) (hf : e.adapter.filtered = false) (hw : Writable e.store) (hc : Canon e.store)
+    (hpd : e.store.p.isEmpty = false)
+    (hwf : e.store.WF) (sec pt : String) (hex : (e.store.find sec pt).isSome = true) :
+    (loadRecords e.savePolicy.1.store.clear e.savePolicy.1.adapter.records).getPolicy sec pt = e.store.getPolicy sec pt := by
+  obtain ⟨h1, h2⟩ := save_text_records e hk hp hf hw hpd
+  rw [h1, h2]
+  have hex' : (e.store.clear.find sec pt).isSome = true := by rw [find_clear]; exact hex
+  rw [getPolicy_loadRecords _ e.store.clear sec pt hex', getPolicy_clear', recsFor_allRecords e.store hc sec pt hex]
+  rw [foldl_insertMove_nodup _ [] (hwf sec pt) (by simp)]
+  simp
+
 /-! ### Non-vacuity -/
 example : SafeField "a,b".toList := ⟨by decide, by decide, by decide, by decide⟩
 example : SafeField "d é".toList := ⟨by decide, by decide, by decide, by decide⟩
@@ -807,5 +963,28 @@ example : parseCsvLine (renderLine [','] "p".toList ["alice".toList, "a,b".toLis
 example : Canon ⟨[{ key := "p", tokens := [], arity := 0, policy := [] }, { key := "p2", tokens := [], arity := 0, policy := [] }],
     [{ key := "g", tokens := [], arity := 2, policy := [] }, { key := "g2", tokens := [], arity := 3, policy := [] }]⟩ :=
   ⟨by decide, by decide, by decide, by decide⟩
+
+/-- the premises of `save_then_load_text` hold of a concrete store with a comma inside a value -/
+def demoStore : Store := ⟨[{ key := "p", tokens := [], arity := 0, policy := [["alice", "a,b"]] }], []⟩
+theorem demo_writable : Writable demoStore := by
+  constructor
+  · intro d hd
+    simp only [demoStore, List.append_nil, List.mem_singleton] at hd
+    subst hd
+    exact ⟨⟨by decide, by decide, by decide, by decide⟩, by decide, by decide, by decide⟩
+  · intro d hd r hr
+    simp only [demoStore, List.append_nil, List.mem_singleton] at hd
+    subst hd
+    simp only [List.mem_singleton] at hr
+    subst hr
+    refine ⟨by decide, ?_, ?_⟩
+    · intro f hf
+      simp only [List.mem_cons, List.not_mem_nil, or_false] at hf
+      rcases hf with rfl | rfl <;> exact ⟨by decide, by decide, by decide, by decide⟩
+    · intro f hf
+      simp only [List.mem_cons, List.not_mem_nil, or_false] at hf
+      rcases hf with rfl | rfl <;> decide
+example : Canon demoStore := ⟨by decide, by decide, by decide, by decide⟩
+example : (splitLines "p, alice,\"a,b\"\n".toList).filterMap lineRecord = [("p", "p", ["alice", "a,b"])] := by decide +kernel
 
 end Casbin.C09
